@@ -158,6 +158,21 @@ CHECKS = {
         note="partial: the hardware memory model and the OS scheduler are not modelled (x86 cannot show a release/acquire "
              "violation); Spec of release/acquire is a ~100-line hand rendering; the 1e9 spin cap (starved waiter returns "
              "failure) and double limit reads in can_parse are discussed in DESIGN.md, not exhibited."),
+
+    "C17": dict(
+        technique="Lean 4: decide over the C-API function table regenerated from src/ada_c.cpp and ada_c.h (guards, neutral "
+                  "defaults, declared = defined, delegates); lock-step C handle vs C++ object under ASan/LSan",
+        text="Gen/CApi.lean has one row per extern \"C\" function (80), re-extracted every run. Theorems: every function that "
+             "dereferences a result handle is guarded and returns the neutral value of its return type on an invalid handle; "
+             "header and definitions declare the same functions; each wrapper delegates to the member its name says; the "
+             "owned-string allocators and the free functions are exactly the audited ones. The same histories are applied to "
+             "a C handle and a C++ object and every getter (bytes, length, null-ness), predicate, offset, return value is "
+             "compared after each step, incl. failed parses (invalid handles), search params, string lists, iterators, IDNA "
+             "owned strings; everything is released once under ASan+LSan.",
+        design_ref="DESIGN.md §5 C17",
+        note="Faithfulness is by definition in the wrapper model, so the weight is on the lock-step correspondence; the "
+             "allocator (exactly-once release) is a runtime fact checked by LSan/ASan; caller-contract violations "
+             "(index >= size in ada_strings_get, use after free) are not generated."),
 }
 
 NOT_YET = "check not built yet (work in progress in this session; see DESIGN.md §8 build order)"
